@@ -7,17 +7,19 @@ use super::*;
 use super::{property, PropertyType};
 
 fn len(disconnect: &Disconnect, properties: &Option<DisconnectProperties>) -> usize {
+    // The Reason Code and Property Length can be omitted if the Reason Code is 0x00
+    // (Normal disconnecton) and there are no Properties: Remaining Length of 0
     if disconnect.reason_code == DisconnectReasonCode::NormalDisconnection && properties.is_none() {
-        return 2; // Packet type + 0x00
+        return 0;
     }
 
-    let mut length = 0;
+    let mut length = 1; // Disconnect Reason Code
     if let Some(properties) = &properties {
-        length += 1; // Disconnect Reason Code
         let properties_len = properties::len(properties);
         let properties_len_len = len_len(properties_len);
         length += properties_len_len + properties_len;
     } else {
+        // just 1 byte representing 0 len properties
         length += 1;
     }
 
@@ -68,13 +70,11 @@ pub fn write(
     buffer.put_u8(0xE0);
 
     let length = len(disconnect, properties);
-
-    if length == 2 {
-        buffer.put_u8(0x00);
-        return Ok(length);
-    }
-
     let len_len = write_remaining_length(buffer, length)?;
+
+    if length == 0 {
+        return Ok(1 + len_len);
+    }
 
     buffer.put_u8(code(disconnect.reason_code));
 
